@@ -1,7 +1,8 @@
 (* proofs/DeclPerm.v — C14 (verdict half): ProgOK is invariant under permutation of the function,
    process and assumed-name declarations (on the declarative judgement). *)
 Require Import Grits.Base Grits.ModeDefs Grits.Modes Grits.STypes Grits.Forms Grits.Subst Grits.Infer
-               Grits.TcDeps Grits.Expand Grits.Tc Grits.spec.Typing Grits.proofs.TcLemmas Grits.proofs.UseMap.
+               Grits.TcDeps Grits.Expand Grits.Tc Grits.spec.Typing Grits.proofs.TcLemmas Grits.proofs.UseMap
+               Grits.proofs.TypingSoundTop Grits.proofs.Acyclic.
 Require Import Coq.Sorting.Permutation.
 
 Lemma Forall2_perm {A B} (R : A -> B -> Prop) l1 l1' : Permutation l1 l1' -> forall l2, Forall2 R l1 l2 ->
@@ -175,7 +176,7 @@ Qed.
 
 Theorem typing_perm_e pe pe' : decl_perm pe pe' -> ProgOKe teq pe -> ProgOKe teq pe'.
 Proof.
-  intros [ET [PF [PP PA]]] [SD NF [Sg [SO [FO PO]]] NA TA NP DJ U1 U2 U3].
+  intros [ET [PF [PP PA]]] [SD NF [Sg [SO [FO PO]]] NA TA NP DJ U1 U2 U3 AC].
   destruct (Forall2_perm _ _ _ PF _ SO) as [Sg' [SO' PS]].
   assert (NS : NoDup (map fs_name Sg)) by (rewrite (sig_of_names _ _ _ SO); exact NF).
   pose proof (sig_lookup_perm _ _ PS NS) as EXT.
@@ -207,6 +208,7 @@ Proof.
     + right. eapply Permutation_in; eauto.
   - intros x Hx. eapply Permutation_in; [exact PU|]. apply U3.
     eapply Permutation_in; [apply Permutation_sym; exact PAi|exact Hx].
+  - now rewrite (deps_acyclic_perm _ _ NP PP).
 Qed.
 
 Theorem typing_perm p p' : decl_perm p p' -> ProgOK teq p -> ProgOK teq p'.
@@ -217,7 +219,8 @@ Proof.
   destruct (Forall2_perm _ _ _ PA _ EA) as [as' [EA' PA']].
   exists {| p_procs := ps'; p_assumed := as'; p_funs := fs'; p_types := p_types pe |}. split.
   - repeat split; cbn; rewrite ?ET; auto.
-  - eapply typing_perm_e; [|exact OK]. repeat split; cbn; auto.
+  - eapply typing_perm_e; [|exact OK].
+    split; [reflexivity|]. split; [exact PF'|]. split; [exact PP'|]. exact PA'.
 Qed.
 
 Lemma decl_perm_sym p p' : decl_perm p p' -> decl_perm p' p.
